@@ -98,3 +98,37 @@ func Harness_C19_stack() {
 	VerifShared(func(i int) string { return readWorkload(m, key, oid) })
 	VerifCover("done")
 }
+
+// Harness_C19_reader_reread: as Harness_C19_reader, on tables whose log block is so full that the reader has to fetch it a second time with a larger size (the path that handles blocks larger than the first guess).
+// bounds: 2 refs + 3 reflog entries of one name, BlockSize 256 x Unaligned; the message length of the last entry sweeps 56..95, so the inflated size of the log block takes every value in a window reaching up to the block size; lookup key of 0..1 bytes
+// covers: done
+func Harness_C19_reader_reread() {
+	cfg := Config{BlockSize: 256, Unaligned: VerifChoose(2) == 1}
+	refs := []*RefRecord{{RefName: "a", UpdateIndex: 1, Value: hashWith(20, 1, 1)}, {RefName: "b", UpdateIndex: 1, Value: hashWith(20, 2, 1)}}
+	L := 56 + VerifIntRange(0, 39)
+	msg := make([]byte, L+1)
+	for i := range msg {
+		msg[i] = 'x'
+	}
+	msg[L] = '\n'
+	var logs []*LogRecord
+	for i := 0; i < 3; i++ {
+		l := &LogRecord{RefName: "a", UpdateIndex: uint64(3 - i), New: hashWith(20, byte(i), 2), Old: hashWith(20, byte(i), 3), Name: "n", Email: "e", Time: uint64(10 + i), Message: "m\n"}
+		if i == 2 {
+			l.Message = string(msg)
+		}
+		logs = append(logs, l)
+	}
+	data, ok := writeTable(cfg, 1, 3, refs, logs)
+	VerifAssert(ok, "writer-accepts")
+	rd, err := NewReader(&ByteBlockSource{data}, "t")
+	VerifAssert(err == nil, "newreader")
+	if err != nil {
+		return
+	}
+	key := symString(VerifIntRange(0, 1))
+	oid := hashWith(20, 1, 1)
+	VerifFreeze(rd)
+	VerifShared(func(i int) string { return readWorkload(rd, key, oid) })
+	VerifCover("done")
+}
